@@ -49,6 +49,7 @@ func checkC05(c *Ctx) {
 		var gs []*SynGrammar
 		if done == 0 {
 			gs = append(gs, curatedSyn()...)
+			gs = append(gs, repoSynGrammars()...)
 		}
 		for i := 0; i < min(bs, total-done); i++ {
 			o := c04Opts
